@@ -1033,7 +1033,7 @@ func main() {
 	// 2. operation sequences
 	ncases := 1500
 	if c.Thorough() {
-		ncases = 12000 // ~25 min; 40 000 ran past the two-hour limit once every case went through five engines and both batch wrappers
+		ncases = 5000 // the Pebble engines slow down as tombstones accumulate over a run: 12 000 took over an hour, 40 000 ran past the two-hour limit
 	}
 	r := hx.NewRNG(c.Seed)
 	shapes := map[string]int{}
